@@ -32,7 +32,7 @@ def run_threads_case(case):
     tr.enable_recording()
     chooser = S.Scripted(case['schedule']) if case.get('schedule') is not None else \
         (S.RandomChooser(random.Random(case['rand'])) if case.get('rand') is not None else S.Scripted([]))
-    sch = S.Scheduler([trm.__file__.replace('.pyc', '.py')], chooser=chooser, max_steps=60000, watchdog_s=30.0)
+    sch = S.Scheduler([trm.__file__.replace('.pyc', '.py')], chooser=chooser, max_steps=60000, watchdog_s=10.0)
     results = [[] for _ in case['workers']]
     errors = []
 
@@ -100,9 +100,38 @@ def run_threads_case(case):
         except BaseException as ex:
             main_result.append(['exc', type(ex).__name__])
     sch.spawn('main', main)
-    outcome = sch.run()
-    return {'outcome': outcome, 'main': main_result, 'results': results,
+    blocked_at = None
+    try:
+        outcome = sch.run()
+    except S.SchedTimeout as ex:
+        # the thread holding the baton sits in a blocking call of the threading module that the recorder made: the recorder
+        # makes its caller wait for another thread (the undecorated twin never blocks).  Anything else stays a harness error.
+        blocked_at = blocked_in_recorder(getattr(ex, 'info', None), trm.__file__.replace('.pyc', '.py'))
+        if blocked_at is None:
+            raise
+        # waiting for a lock that a pre-empted thread holds is an artefact of the controlled schedule (the holder would go on
+        # and release it): such a schedule is skipped, not judged
+        outcome = 'blocked' if blocked_at.endswith(WAITS) else 'skipped'
+    return {'outcome': outcome, 'main': main_result, 'results': results, '_blocked_at': blocked_at,
             '_choices': list(sch.choices), '_decisions': [dict(d) for d in sch.decisions][:400], '_steps': sch.steps}
+
+
+WAITS = ('threading.wait', 'threading.join', 'threading.wait_for', 'threading._wait_for_tstate_lock')
+
+
+def blocked_in_recorder(info, target_file):
+    if not info or not info.get('holder'):
+        return None
+    stack = info.get('stacks', {}).get(info['holder']) or []
+    if not stack or not stack[0][0].endswith('threading.py'):
+        return None
+    for filename, lineno, name in stack:
+        if filename.endswith('threading.py'):
+            continue
+        if os.path.abspath(filename) == os.path.abspath(target_file):
+            return '%s waits in %s (tape_recorder.py:%d), called threading.%s' % (info['holder'], name, lineno, stack[0][2])
+        return None
+    return None
 
 
 def expected(case):
